@@ -29,6 +29,8 @@ def obligations(tier):
         o.append(Obl("ktable_race_%s" % nm, "C16/ktable.c", "set by the owner while ANOTHER work unit's completed set of the new key lands at a solver-chosen atomic instruction (lazy creation / append race): one entry per key, one of the two values stored, destructors and memory exactly once",
                      defs=defs + ["PPS"], unwind=7, cut_loops=SPIN, object_bits=11, backend="cadical", encodes=ENC, timeout=900 if tier == "thorough" else 150, mem_gb=14 if tier == "thorough" else None,
                      bounds="one concurrent set, placed at any atomic instruction of the focus at which the table lock is free", symbolic="placement of the concurrent set, key ids, values, destructors"))
+    o.append(Obl("key_ids", "C16/keyid.c", "4 solver-chosen ABT_key_create / ABT_key_free operations on 3 handles from an arbitrary id counter: an id is never handed out twice, not even after the key was freed (its entries may still live in work units), and never collides with the runtime's reserved keys",
+                 unwind=5, object_bits=10, backend="cadical", encodes=["ABT_key_create", "ABT_key_free"], bounds="4 operations, 3 handles, counter below 2^32-16", symbolic="operation sequence, counter start, destructor presence"))
     return o
 
 MANIFEST_ENTRY = {
